@@ -1,6 +1,6 @@
 use super::{Lint, LintKind, Linter};
 use crate::TokenStringExt;
-use crate::{Document, Span};
+use crate::Document;
 
 /// Detect and warn that the sentence is too long.
 #[derive(Debug, Clone, Copy, Default)]
@@ -14,8 +14,14 @@ impl Linter for LongSentences {
             let word_count = sentence.iter_words().count();
 
             if word_count > 40 {
+                // Not every token knows where it is: the zero-width breaks some parsers emit at
+                // the end of a block carry the block's start. Cover what the tokens cover.
+                let Some(span) = sentence.span() else {
+                    continue;
+                };
+
                 output.push(Lint {
-                    span: Span::new(sentence[0].span.start, sentence.last().unwrap().span.end),
+                    span,
                     lint_kind: LintKind::Readability,
                     message: format!("This sentence is {} words long.", word_count),
                     ..Default::default()
